@@ -204,68 +204,6 @@ def splitChar (sep : Char) : Str → List Str
 
 namespace Small
 
-/-! ### `int(str)` (base 10), CPython 3.12
-
-  `PyLong_FromUnicodeObject`: every non-ASCII white-space character becomes a blank and every non-ASCII
-  decimal digit (Unicode category Nd) its ASCII digit (`_PyUnicode_TransformDecimalAndSpaceToASCII`; ASCII
-  characters are kept as they are, so U+001C..U+001F, for which `str.isspace` holds, are NOT blanks here);
-  then `PyLong_FromString`: blanks, one optional sign, digits with single underscores between digits,
-  blanks, end of string.  More than `sys.get_int_max_str_digits()` = 4300 digits (default; underscores, sign
-  and blanks not counted) is a `ValueError` as well.  Every failure is `ValueError`. -/
-
-/-- the white space `int()` skips around the number: `str.isspace` without U+001C..U+001F -/
-def isIntSpace (c : Char) : Bool :=
-  isSpaceChar c && !(28 ≤ c.toNat && c.toNat ≤ 31)
-
-/-- the code points of the digit zero of every decimal-digit run (Unicode category Nd) of Unicode 15.0.0
-    (`unicodedata.unidata_version` of the interpreter the harness runs pybufrkit with); each is followed by the
-    digits one to nine.  `harness/py2lean_small.py:check_decimal_zeros` compares this list with `unicodedata`
-    on every translation of a function that calls `int()`. -/
-def decimalZeros : List Nat := [
-  0x30, 0x660, 0x6f0, 0x7c0, 0x966, 0x9e6, 0xa66, 0xae6, 0xb66, 0xbe6, 0xc66, 0xce6,
-  0xd66, 0xde6, 0xe50, 0xed0, 0xf20, 0x1040, 0x1090, 0x17e0, 0x1810, 0x1946, 0x19d0, 0x1a80,
-  0x1a90, 0x1b50, 0x1bb0, 0x1c40, 0x1c50, 0xa620, 0xa8d0, 0xa900, 0xa9d0, 0xa9f0, 0xaa50, 0xabf0,
-  0xff10, 0x104a0, 0x10d30, 0x11066, 0x110f0, 0x11136, 0x111d0, 0x112f0, 0x11450, 0x114d0, 0x11650, 0x116c0,
-  0x11730, 0x118e0, 0x11950, 0x11c50, 0x11d50, 0x11da0, 0x11f50, 0x16a60, 0x16ac0, 0x16b50, 0x1d7ce, 0x1d7d8,
-  0x1d7e2, 0x1d7ec, 0x1d7f6, 0x1e140, 0x1e2f0, 0x1e4f0, 0x1e950, 0x1fbf0]
-
-/-- `unicodedata.decimal(c)` (`none` when `c` is not a decimal digit) -/
-def decimalDigitValue (c : Char) : Option Nat :=
-  (decimalZeros.find? fun z => z ≤ c.toNat && c.toNat < z + 10).map fun z => c.toNat - z
-
-/-- digits with single underscores between digits: value and number of digits so far -/
-def digitsVal : Nat → Nat → List Char → Option (Nat × Nat)
-  | acc, k, [] => some (acc, k)
-  | acc, k, c :: cs =>
-    match decimalDigitValue c with
-    | some d => digitsVal (acc * 10 + d) (k + 1) cs
-    | none =>
-      if c = '_' then
-        match cs with
-        | d :: _ => if (decimalDigitValue d).isSome then digitsVal acc k cs else none
-        | [] => none
-      else none
-
-/-- an unsigned literal: starts with a digit -/
-def natLit (s : Str) : Option (Nat × Nat) :=
-  match s with
-  | c :: _ => if (decimalDigitValue c).isSome then digitsVal 0 0 s else none
-  | [] => none
-
-/-- `sys.get_int_max_str_digits()` (default) -/
-def intMaxStrDigits : Nat := 4300
-
-/-- `int(s)` for a `str` -/
-def intOfStr (s : Str) : Except Exc Int :=
-  let t := ((s.dropWhile isIntSpace).reverse.dropWhile isIntSpace).reverse
-  let neg : Bool := t.head? == some '-'
-  let body := if t.head? == some '-' || t.head? == some '+' then t.drop 1 else t
-  match natLit body with
-  | none => .error .valueError
-  | some (n, k) =>
-    if k > intMaxStrDigits then .error .valueError
-    else .ok (if neg then -(Int.ofNat n) else Int.ofNat n)
-
 /-! ### `max`, `min`, `set` on lists of int -/
 
 /-- `max(xs)` (`ValueError` on the empty list) -/
@@ -446,6 +384,58 @@ def powInt (a b : Int) : Except Exc Int :=
   if b < 0 then .error (.raised "py2lean: ** with a negative exponent (float result) is outside the modelled subset")
   else .ok (a ^ b.toNat)
 
+/-! ## w5-smallsrc, round 2: printing (`'{}'.format(x)` = `str(x)`) of `None`-or-value and int-or-slice values,
+    `isinstance(x, slice)`, the members of a `slice` object -/
+namespace Small
+
+/-- `d.get(k, default)` -/
+def dictGet {κ α : Type} [BEq κ] (d : List (κ × α)) (k : κ) (default : α) : α :=
+  (d.lookup k).getD default
+
+/-- `str(None)` -/
+def noneStr : Str := ['N', 'o', 'n', 'e']
+
+/-- `str(x)` for `x` an `int` or `None` -/
+def strOfOptInt : Option Int → Str
+  | none => noneStr
+  | some i => strOfInt i
+
+/-- `str(x)` for `x` a `str` or `None` -/
+def strOfOptStr : Option Str → Str
+  | none => noneStr
+  | some s => s
+
+/-- `str(x)` for an `int` or a `slice` object: `str(slice(1, None, 2)) == 'slice(1, None, 2)'` -/
+def strOfIntOrSlice : IntOrSlice → Str
+  | .int i => strOfInt i
+  | .slice a b c => ['s', 'l', 'i', 'c', 'e', '('] ++ strOfOptInt a ++ [',', ' '] ++ strOfOptInt b ++ [',', ' '] ++
+      strOfOptInt c ++ [')']
+
+def strOfOptIntOrSlice : Option IntOrSlice → Str
+  | none => noneStr
+  | some x => strOfIntOrSlice x
+
+/-- `isinstance(x, slice)` for `x` an `int`, a `slice` object or `None` -/
+def isSlice : Option IntOrSlice → Bool
+  | some (.slice _ _ _) => true
+  | _ => false
+
+/-- `x.start` (`AttributeError` when `x` is an `int` or `None`) -/
+def sliceStart : Option IntOrSlice → Except Exc (Option Int)
+  | some (.slice a _ _) => .ok a
+  | _ => .error (.raised "AttributeError")
+
+/-- `x.stop` -/
+def sliceStop : Option IntOrSlice → Except Exc (Option Int)
+  | some (.slice _ b _) => .ok b
+  | _ => .error (.raised "AttributeError")
+
+/-- `x.step` -/
+def sliceStep : Option IntOrSlice → Except Exc (Option Int)
+  | some (.slice _ _ c) => .ok c
+  | _ => .error (.raised "AttributeError")
+
+end Small
 /-! ### additions for functions with `return` inside loops, `try/except` whose handler continues, generators and
     callbacks (`decoder.generate_bufr_message`, C11 / C12) -/
 
